@@ -29,7 +29,8 @@ import (
 
 // target: one function to translate. Lean name = Name unless As is set (name clashes across packages).
 type target struct {
-	Pkg  string // package directory relative to the repo root ("." = root)
+	Pkg  string // package directory relative to the repo root ("." = root), or the import path of a dependency (Dep)
+	Dep  bool   // Pkg is the import path of a module the repository depends on (sources in the module cache)
 	Name string // function name
 	As   string
 }
@@ -53,6 +54,8 @@ var targets = []target{
 	{Pkg: "routing", Name: "parseRPCName"},
 	// C13
 	{Pkg: "webbridge", Name: "closeReason"},
+	// C10: the code → HTTP status table webbridge.errorStatus uses lives in the grpc-gateway dependency
+	{Pkg: "github.com/grpc-ecosystem/grpc-gateway/v2/runtime", Dep: true, Name: "HTTPStatusFromCode"},
 }
 
 type failure struct{ msg string }
@@ -65,8 +68,12 @@ var repo string
 func rel(p token.Pos) string {
 	pos := fset.Position(p)
 	r, err := filepath.Rel(repo, pos.Filename)
-	if err != nil {
+	if err != nil || strings.HasPrefix(r, "..") {
+		// a dependency in the module cache: module@version/path
 		r = pos.Filename
+		if i := strings.Index(r, "/pkg/mod/"); i >= 0 {
+			r = r[i+len("/pkg/mod/"):]
+		}
 	}
 	return fmt.Sprintf("%s:%d", filepath.ToSlash(r), pos.Line)
 }
@@ -112,6 +119,9 @@ func leanType(n ast.Node, T types.Type) string {
 		case types.Uint8:
 			return tByte
 		case types.Int, types.Int8, types.Int16, types.Int32, types.Int64, types.UntypedInt, types.UntypedRune:
+			return tInt
+		case types.Uint, types.Uint16, types.Uint32, types.Uint64:
+			// values only: compared, switched on, passed on. Arithmetic on them is rejected (see isUnsigned).
 			return tInt
 		}
 		fail(n, "type %s: unsigned/floating/complex types other than byte are outside the subset (wrap-around not modelled)", T)
@@ -347,6 +357,20 @@ func (t *tr) expr(e ast.Expr) string {
 	return ""
 }
 
+// unsigned integer types other than byte are translated to Int for comparison / switch / passing only:
+// any arithmetic on them could wrap, which Int does not model
+func isUnsigned(T types.Type) bool {
+	b, ok := T.Underlying().(*types.Basic)
+	if !ok {
+		return false
+	}
+	switch b.Kind() {
+	case types.Uint, types.Uint16, types.Uint32, types.Uint64, types.Uintptr:
+		return true
+	}
+	return false
+}
+
 func (t *tr) isNil(e ast.Expr) bool {
 	id, ok := e.(*ast.Ident)
 	if !ok {
@@ -373,6 +397,13 @@ func (t *tr) binary(x *ast.BinaryExpr) string {
 	}
 	a, b := t.expr(x.X), t.expr(x.Y)
 	la, lb := t.lt(x.X), t.lt(x.Y)
+	if isUnsigned(t.typeOf(x.X)) || isUnsigned(t.typeOf(x.Y)) {
+		switch x.Op {
+		case token.EQL, token.NEQ, token.LSS, token.LEQ, token.GTR, token.GEQ:
+		default:
+			fail(x, "operator %s on unsigned type %s outside the subset (wrap-around not modelled)", x.Op, t.typeOf(x.X))
+		}
+	}
 	switch x.Op {
 	case token.LAND:
 		return "(" + a + " && " + b + ")"
@@ -455,6 +486,9 @@ func (t *tr) call(x *ast.CallExpr) string {
 		a := t.expr(x.Args[0])
 		switch {
 		case from == to:
+			if from == tInt && (isUnsigned(t.typeOf(x.Args[0])) != isUnsigned(tv.Type)) {
+				fail(x, "conversion %s → %s between signed and unsigned outside the subset", t.typeOf(x.Args[0]), tv.Type)
+			}
 			if from == tInt {
 				// widths: a narrowing integer conversion would wrap in Go
 				fb, _ := t.typeOf(x.Args[0]).Underlying().(*types.Basic)
@@ -549,6 +583,12 @@ func isASCII(s string) bool {
 		}
 	}
 	return true
+}
+
+// logging calls: no effect on the results of the function, dropped by the translation
+var droppedCalls = map[string]bool{
+	"google.golang.org/grpc/grpclog.Infof": true, "google.golang.org/grpc/grpclog.Warningf": true,
+	"google.golang.org/grpc/grpclog.Errorf": true,
 }
 
 // library functions that are NOT modelled but may be called: the call is kept uninterpreted, the translated
@@ -707,6 +747,9 @@ func (t *tr) stmts(list []ast.Stmt, c ctx, d int) string {
 		}
 		op := map[token.Token]string{token.INC: "+", token.DEC: "-"}[x.Tok]
 		lt := t.lt(x.X)
+		if isUnsigned(t.typeOf(x.X)) {
+			fail(x, "%s on unsigned type outside the subset", x.Tok)
+		}
 		return ind(d) + fmt.Sprintf("let %s : %s := %s %s 1\n", t.expr(id), lt, t.expr(id), op) + t.stmts(rest, c, d)
 	case *ast.DeclStmt:
 		gd := x.Decl.(*ast.GenDecl)
@@ -754,6 +797,14 @@ func (t *tr) stmts(list []ast.Stmt, c ctx, d int) string {
 	case *ast.ForStmt, *ast.RangeStmt:
 		return t.loopStmt(s, rest, c, d)
 	case *ast.ExprStmt:
+		if call, ok := x.X.(*ast.CallExpr); ok {
+			if sel, ok := call.Fun.(*ast.SelectorExpr); ok {
+				if o, ok := t.info.Uses[sel.Sel].(*types.Func); ok && o.Pkg() != nil && droppedCalls[o.Pkg().Path()+"."+o.Name()] {
+					t.libUsed[o.Pkg().Path()+"."+o.Name()+" (logging call: dropped)"] = true
+					return t.stmts(rest, c, d)
+				}
+			}
+		}
 		fail(x, "expression statement (side effect) outside the subset")
 	}
 	fail(s, "statement %T outside the subset", s)
@@ -825,6 +876,9 @@ func (t *tr) assign(x *ast.AssignStmt, c ctx, d int) string {
 	default:
 		ops := map[token.Token]token.Token{token.ADD_ASSIGN: token.ADD, token.SUB_ASSIGN: token.SUB, token.MUL_ASSIGN: token.MUL}
 		if op, ok := ops[x.Tok]; ok && len(x.Lhs) == 1 {
+			if isUnsigned(t.typeOf(x.Lhs[0])) {
+				fail(x, "%s on unsigned type outside the subset", x.Tok)
+			}
 			n, lt := t.lhsName(x.Lhs[0])
 			if lt == tInt || lt == tByte {
 				return ind(d) + fmt.Sprintf("let %s : %s := %s %s %s\n", n, lt, n, op, t.expr(x.Rhs[0]))
@@ -1288,7 +1342,11 @@ func main() {
 	for _, tg := range targets {
 		if !dirs[tg.Pkg] {
 			dirs[tg.Pkg] = true
-			patterns = append(patterns, "./"+tg.Pkg)
+			if tg.Dep {
+				patterns = append(patterns, tg.Pkg)
+			} else {
+				patterns = append(patterns, "./"+tg.Pkg)
+			}
 		}
 	}
 	cfg := &packages.Config{Mode: packages.NeedName | packages.NeedFiles | packages.NeedSyntax | packages.NeedTypes |
@@ -1310,6 +1368,7 @@ func main() {
 		if len(p.GoFiles) > 0 {
 			d, _ := filepath.Rel(repo, filepath.Dir(p.GoFiles[0]))
 			byDir[filepath.ToSlash(d)] = p
+			byDir[p.PkgPath] = p
 		}
 	}
 	if nerr > 0 {
